@@ -194,6 +194,14 @@ class C09Monitor(jobsim.Monitor):
         # load-free states of cyclic ramps, where only the Newton tolerance is left
         scale = max(float(np.abs(uref).max()), 0.05 * float(np.max(doc["mesh"]["b"])))
         d = float(np.abs(u - uref).max())
+        if d > (2e-6 * slack) * scale + 1e-10 and doc.get("material", {}).get("name") == "AD:saint_venant_kirchhoff":
+            # the Saint-Venant Kirchhoff energy depends on C = F^T F only: configurations with
+            # inverted cells (det F < 0) are equilibria with a positive definite tangent as well,
+            # the homogeneous solution is not the only one Newton can reach from a distorted start
+            Fq = defgrad(w, rec["x"])
+            detF = np.linalg.det(np.moveaxis(Fq, (0, 1), (-2, -1)))
+            if detF.min() <= 0:
+                raise Discard("inverted-equilibrium-of-svk")
         if d > (2e-6 * slack) * scale + 1e-10:
             self.V("affine-field", f"substep ({j},{i}): displacement field differs from the affine map by {d:.3e} (scale {scale:.3e}, {fam}, {case})", site=f"field[{w.mesh.cell_type}]", fault=fk)
         self.log.count("affine-field-checked")
